@@ -125,7 +125,12 @@ if __name__ == "__main__":
     for j in js:
         if "coordinator" in j.name: j.expect_fail = [r"canary: coordinator run reaches the end"]
     vlib.run_jobs(js, nproc=3 if vlib.TIER != 'thorough' else 2)
-    rep = vlib.Report("C12", level="model_checking"); rep.add_jobs(js)
+    rep = vlib.Report("C12", level="other"); rep.add_jobs(js)
+    rep.extra["explanation"] = ("bounded thread-modular contract verification: for each concrete instance (number of free coefficients nF, number of workers) "
+                                "CBMC decides every obligation of the real walk_descents / evaluate_descent against rely/guarantee contracts of the pthread primitives, "
+                                "with all data, worker results and rely choices symbolic; not a proof for all instance sizes, not an enumeration of interleavings")
+    rep.extra["evaluations"] = len(js); rep.extra["distinct_nontrivial"] = len(set(j.name for j in js))
+    rep.extra["rule"] = "one evaluation = one (nF, n_threads) coordinator instance or one (nF, rounds) worker instance; all are distinct configurations"
     for f in fns: rep.functions.append(f.info())
     rep.assume("BOUNDED: one instance per concrete (nF, n_threads); never counted as proved",
                "thread-modular argument: the coordinator is verified against the workers' GUARANTEE (a RUN worker eventually writes its outputs, sets WAIT under the mutex and broadcasts) applied as a nondeterministic RELY havoc inside pthread_mutex_lock/pthread_cond_wait; interleavings of the real threads are NOT enumerated (CBMC: pointer handling for concurrency is unsound)",
